@@ -31,6 +31,7 @@ var _ = verifRegister("C12", streamC12)
 var _ = verifRegisterFacts(repository.VerifFactsC12)
 
 type c12Req struct {
+	op    string
 	proc  int
 	grant chan struct{}
 	done  chan struct{}
@@ -61,6 +62,10 @@ type c12Backend struct {
 	// loadFails: this process can list and delete lock files but not read them (another user's files in
 	// a shared repository, a read error that lasts as long as the command); switched by the process
 	loadFails atomic.Bool
+	// idemRemove: removing a file that does not exist is not an error (object stores behave like this)
+	idemRemove bool
+	// slowSave: this process's lock uploads are slow - the scheduler lets everybody else go first
+	slowSave bool
 }
 
 var errC12Unreadable = fmt.Errorf("verif: permission denied (lock file of another user)")
@@ -82,7 +87,7 @@ func (b *c12Backend) sched(op, name string, f func() (string, error)) error {
 		_, err := f()
 		return err
 	}
-	req := &c12Req{proc: b.proc, grant: make(chan struct{}), done: make(chan struct{})}
+	req := &c12Req{op: op, proc: b.proc, grant: make(chan struct{}), done: make(chan struct{})}
 	c.pending[b.proc] = append(c.pending[b.proc], req)
 	c.mu.Unlock()
 	select {
@@ -157,7 +162,13 @@ func (b *c12Backend) Remove(ctx context.Context, h backend.Handle) error {
 	if h.Type != backend.LockFile {
 		return b.Backend.Remove(ctx, h)
 	}
-	return b.sched("remove", h.Name, func() (string, error) { return "-", b.Backend.Remove(ctx, h) })
+	return b.sched("remove", h.Name, func() (string, error) {
+		err := b.Backend.Remove(ctx, h)
+		if err != nil && b.idemRemove && b.Backend.IsNotExist(err) {
+			return "idempotent", nil
+		}
+		return "-", err
+	})
 }
 
 func (b *c12Backend) Stat(ctx context.Context, h backend.Handle) (backend.FileInfo, error) {
@@ -334,6 +345,12 @@ func streamC12(h *H) {
 			}
 			procs[i] = p
 			p.view = &c12Backend{Backend: base, proc: i, ctl: ctl}
+			if p.kind == "expired" {
+				p.view.idemRemove = h.Intn(2) == 0
+				p.view.slowSave = h.Intn(2) == 0
+			} else {
+				p.view.idemRemove = h.Intn(4) == 0
+			}
 			repos[i] = repository.TestOpenBackend(TB, p.view)
 			if p.kind == "expired" {
 				l, err := repository.VerifC12AgedLock(repos[i], p.age, p.excl)
@@ -357,7 +374,7 @@ func streamC12(h *H) {
 		h.Rec("nproc", Itoa(nproc))
 		for _, p := range procs {
 			if p.kind == "expired" {
-				h.Rec("proc", Itoa(p.id), p.kind, B(p.excl), Itoa(p.refreshes), p.end, I64(p.age.Milliseconds()), p.aged.ID()[:8])
+				h.Rec("proc", Itoa(p.id), p.kind, B(p.excl), Itoa(p.refreshes), p.end, I64(p.age.Milliseconds()), p.aged.ID()[:8], B(p.view.idemRemove), B(p.view.slowSave))
 			} else {
 				h.Rec("proc", Itoa(p.id), p.kind, B(p.excl), Itoa(p.refreshes), p.end)
 			}
@@ -395,13 +412,20 @@ func streamC12(h *H) {
 		for step := 0; step < 2000; step++ {
 			c12Settle(buf, 2*time.Second)
 			ctl.mu.Lock()
-			var ready []int
+			var ready, fast []int
 			for i, q := range ctl.pending {
 				if len(q) > 0 {
 					ready = append(ready, i)
+					if !(procs[i].view.slowSave && q[0].op == "save") {
+						fast = append(fast, i)
+					}
 				}
 			}
 			ctl.mu.Unlock()
+			// a slow upload completes only when nobody else wants to do anything
+			if len(fast) > 0 {
+				ready = fast
+			}
 			if len(ready) == 0 {
 				alldone := true
 				for _, p := range procs {
